@@ -63,11 +63,14 @@ def is_armed(armed, key):
 
 
 class Rule:
-    def __init__(self, ctx, rid, template):
+    def __init__(self, ctx, rid, template, positional=True):
         self.ctx = ctx
         self.rid = rid
         self.template = template
         self.records = []
+        # positional = the rule reads the parameters of the functions it names by position ($1, $2, ..): its failures are not decided when such a
+        # function's parameter list is not the recorded one.  Rules about captures, types or call structure pass positional=False.
+        self.positional = positional
 
     def _rec(self, verdict, key, detail, where=None, extra=None):
         r = {"rule": self.rid, "key": "%s/%s/%s" % (self.ctx.pid, self.rid, key), "verdict": verdict,
@@ -131,8 +134,8 @@ class Ctx:
         self.facts_dir = facts.extract()
         self.prog = mir.Program(self.facts_dir)
 
-    def rule(self, rid, template):
-        r = Rule(self, rid, template)
+    def rule(self, rid, template, positional=True):
+        r = Rule(self, rid, template, positional)
         self.rules[rid] = r
         return r
 
@@ -263,14 +266,18 @@ class Ctx:
         return 0
 
 
-def _mark_sig_changed(ctx, n0):
+def _mark_sig_changed(ctx, n0, rules=None):
     """records produced by a rule function that read (by name) a function whose parameter list is not the one the rules were written
     against: the rule's positional reading ($1, $2, ..) does not apply to it, so its failures are not decided"""
     ch = dict(ctx.prog.sig_touched)
     ctx.prog.sig_touched = {}
     if not ch:
         return
+    rules = rules if rules is not None else ctx.rules
     for rec in ctx.records[n0:]:
+        rl = rules.get(rec.get("rule"))
+        if rl is not None and not rl.positional:
+            continue
         if not rec.get("sig_changed"):
             rec["sig_changed"] = sorted(ch)
 
@@ -297,7 +304,7 @@ def import_rules(ctx, fns, tag):
                 rr.undecided("aborted", "rule %s aborted: %s" % (fn.__name__, tb.strip().splitlines()[-1][:200]))
         finally:
             ctx.rules = keep
-            _mark_sig_changed(ctx, n0)
+            _mark_sig_changed(ctx, n0, sub)
         for rid, rule in sub.items():
             nid = "%s.%s" % (tag, rid)
             rule.rid = nid
